@@ -667,8 +667,31 @@ def _build_unit(spec, repo=REPO):
                 rsx.apply_rules(rtext, spec["rules"], ed, regex_map=spec.get("regex_map"))
             except rsx.LexError as e:
                 raise Undecided("%s: %s" % (label, e))
-            gen = ed.apply()
+            # rule S1 inside a region: the exact token sequence (exactly once in the region) -> a stand-in call
+            if it.d4:
+                rtoks_ = rsx.sig_tokens(rsx.lex(rtext))
+                for d in it.d4:
+                    if d[0] != "replace":
+                        raise Undecided("%s: only `replace` is supported inside a region" % label)
+                    want_ = [t_.text for t_ in rsx.sig_tokens(rsx.lex(d[1]))]
+                    hits_ = [i_ for i_ in range(len(rtoks_) - len(want_) + 1) if [t_.text for t_ in rtoks_[i_:i_ + len(want_)]] == want_]
+                    if len(hits_) != 1:
+                        raise Undecided("%s: S1 replace `%s`: found %d times (the statement changed? no stand-in for the new text)" % (label, d[1], len(hits_)))
+                    ed.replace(rtoks_[hits_[0]].start, rtoks_[hits_[0] + len(want_) - 1].end, "S1", d[2])
             fs = it.fns.get("")
+            # sites inside a region (loop headers, call-anchored hints): the statements are analysed as the body of a
+            # pseudo fn, the insertions land in the region's own text
+            inner_sites_ = {k_: v_ for k_, v_ in fs.sites.items() if k_ not in ("open", "close")}
+            if inner_sites_ or fs.loopkinds is not None:
+                pre_ = "fn region_() {\n"
+                fs2_ = FnSpec()
+                fs2_.sites = inner_sites_
+                fs2_.loopkinds = fs.loopkinds
+                try:
+                    instrument_fn(pre_ + rtext + "\n}", fs2_, ed, -len(pre_), spec["rules"], label)
+                except (rsx.LexError, AssertionError, IndexError) as e:
+                    raise Undecided("%s: cannot analyse: %s" % (label, e))
+            gen = ed.apply()
             open_t = _strip_blank(fs.sites.get("open", []))
             close_t = _strip_blank(fs.sites.get("close", []))
             l0 = text.count("\n", 0, item.start + r0) + 1
